@@ -117,6 +117,44 @@ def history_case(args):
         sc.close()
 
 
+def dir_history_case(args):
+    """a task whose declared output is a directory with several files in it, and a consumer of that directory: kill at a hook
+    point of its finalisation (or anywhere else), remove the temp dirs, run again: the files of the uninterrupted run -- the
+    directory appears at its final path complete or not at all"""
+    (sp, ref_files, point, seed) = args
+    sc = t3.Scratch()
+    try:
+        sc.plant(sp.files)
+        t3.run_impl(sc, sp, crash="%s:%d" % point, timeout=60)
+        cleanup(sc.work)
+        fin = t3.run_impl(sc, sp, timeout=60)
+        problems = []
+        if fin["rc"] != 0 or not fin["returned"]:
+            problems.append(("restart-fails", "killed at %s:%d, temp dirs removed, run again: exit %s: %s" % (point[0], point[1], fin["rc"], fin["stderr"][-200:])))
+        else:
+            got = t3.data_files(fin["fs"])
+            if got != ref_files:
+                diff = sorted(set(got) ^ set(ref_files)) or [p for p in got if got[p] != ref_files.get(p)]
+                problems.append(("restart-differs", "killed at %s:%d, temp dirs removed, run again: files / contents differ from the uninterrupted run: %s" % (point[0], point[1], diff[:4])))
+        return {"replay": {}, "spec": sp.text(), "bufsize": sp.bufsize, "problems": problems, "conv": [], "d2": None, "point": point, "second": None, "rc": fin["rc"],
+                "stderr": fin["stderr"][-300:], "yield": None, "ntasks": 2, "wall": fin["wall"], "refused": False, "leftovers": 0}
+    finally:
+        sc.close()
+
+
+def dir_workflow(rng):
+    sp = t3.Spec(maxtasks=rng.randint(1, 2), bufsize=128)
+    L = rng.randint(1, 2)
+    paths = ["dh%d.txt" % j for j in range(L)]
+    for p in paths:
+        sp.files[p] = p + "\n"
+    s = sp.src("src", paths)
+    a = sp.proc(t3.RawProc("mkparts", "mkdir {o:parts} && for k in 1 2 3 4; do cat {i:a} > {o:parts}/p$k.txt; echo $k >> {o:parts}/p$k.txt; done",
+                           ins=[("a", [(s, "out")])], outs=[("parts", "{i:a}.parts")]))
+    sp.proc(t3.RawProc("sum", "cat {i:d}/p1.txt {i:d}/p2.txt {i:d}/p3.txt {i:d}/p4.txt > {o:o}", ins=[("d", [(a, "parts")])], outs=[("o", "{i:d}.sum")]))
+    return sp
+
+
 def run(rep, tier, seed):
     proved = vlib.prove(rep, MODULE, THEOREMS)
     ok, msg = vlib.build_ocaml()
@@ -137,6 +175,16 @@ def run(rep, tier, seed):
             cases.append(((sp, model), pt, seed, rng.choice(pts)))
     results = t3.run_many(history_case, cases)
     results += t3.run_many(ks.ks_case, [(seed, i, ("crash",)) for i in range(24 if tier == "quick" else 400)])
+    dcases = []
+    for k in range(1 if tier == "quick" else 6):
+        dsp = dir_workflow(rng)
+        dpts, dref = t3.hook_points(dsp, prefixes=("exec.", "fin."), rng=rng)
+        if dref["rc"] != 0:
+            rep.violation("reference run of the directory-output workflow fails: %s" % dref["stderr"][-300:], {"kind": "unexpected-failure", "spec": dsp.text()})
+        fpts = [p for p in dpts if p[0].startswith("fin.")]
+        opts = [p for p in dpts if not p[0].startswith("fin.")]
+        dcases += [(dsp, t3.data_files(dref["fs"]), pt, seed) for pt in fpts + rng.sample(opts, min(len(opts), 10))]
+    results += t3.run_many(dir_history_case, dcases)
     kf = vlib.known_findings("C03")
     d2_listed = any(f["kind"] == "crash-between-renames-of-one-task" for f in kf)
     nd2 = 0
@@ -151,7 +199,7 @@ def run(rep, tier, seed):
     t3.report_t3(rep, MODULE, proved, results, "T3 crash / re-run / cleanup / re-run histories")
     rep.cov["evaluations"] = len(results) * 3
     rep.cov["distinct_nontrivial"] = len({(r["spec"], r["point"], r["second"]) for r in results})
-    rep.cov["rule"] = "histories on workflows with single- and two-output tasks, a Go-function task and a join: kill the process group at every hit of every hook point of Task.Execute / FinalizePaths / Process.Run / createTasks / runProcs (plus sampled port / slot points); re-run without cleaning (must refuse or complete, never adopt leftovers, finalized files stay correct); remove temp dirs and FIFOs; optionally crash the recovery run at a second point and clean again; run again: must exit 0 with exactly the file set and bytes of the uninterrupted run, without executing tasks whose outputs were final, and without touching their files"
+    rep.cov["rule"] = "histories on workflows with single- and two-output tasks, a directory-valued output (killed at every finalisation hook point), a Go-function task and a join: kill the process group at every hit of every hook point of Task.Execute / FinalizePaths / Process.Run / createTasks / runProcs (plus sampled port / slot points); re-run without cleaning (must refuse or complete, never adopt leftovers, finalized files stay correct); remove temp dirs and FIFOs; optionally crash the recovery run at a second point and clean again; run again: must exit 0 with exactly the file set and bytes of the uninterrupted run, without executing tasks whose outputs were final, and without touching their files"
     rep.cov["rule"] += "; plus kitchen-sink workflows (tools/ks.py: random workflows decorated with tagging components, sub-streams, Concatenator / FileSplitter, streamed pairs, component parameter feeders, Go-function and multi-core processes, RunTo) judged by the model-free crash / clean up / re-run oracle"
     rep.cov["samples"] = [{"point": results[3]["point"], "second": results[3]["second"], "refused": results[3]["refused"], "leftovers": results[3]["leftovers"]}, results[0]["spec"]]
     rep.notes["input_distribution"] = {"workflows": nwf, "histories": len(results), "nested_crash_histories": sum(1 for r in results if r["second"]),
